@@ -178,6 +178,11 @@ def scenario_data(case):
         err_x = np.array(([0.0, 2.0, 1.0, 3.0] * (n // 4 + 1))[:n]) if n < 6 else rng2.integers(0, 4, size=n).astype(float)
     elif case["err_x"] == "shuffled":     # an arbitrary x array
         err_x = rng2.permutation(np.cumsum(dt))
+    elif case["err_x"] == "zeros":        # distances / seconds from the start of a sequence that stands still: all 0.0
+        err_x = np.zeros(n)
+    elif case["err_x"] == "zeros_tail":   # stands still at first, moves at the very end (a single non-zero entry, the last)
+        err_x = np.zeros(n)
+        err_x[-1] = 0.5
     return {"poses": poses, "poses2": poses2, "stamps": stamps if case["stamps"] else None, "start": start,
             "err": err, "err_x": err_x}
 
@@ -357,10 +362,14 @@ def impl_scenario(case):
                 out["readings"] = _axes_readings(ax, is3d, out["traj"]["lines"][0])
         # --- traj_colormap
         err = d["err"]
-        lo, hi = float(np.min(err)), float(np.max(err))
+        # values to colour-map: one per pose (evo_ape) or one per pose pair = one per segment (what evo_rpe hands over
+        # together with the trajectory reduced to the pair poses plus the first pose): N-1 values for N poses
+        cvals = err[:len(err) - 1] if case.get("cmap_vals", "n") == "pairs" else err
+        out["cmap_values"] = int(len(cvals))
+        lo, hi = float(np.min(cvals)), float(np.max(cvals))
         if lo == hi:
             hi = lo + 1.0
-        exc = _call(lambda: plot.traj_colormap(ax, t1, err, mode, lo, hi, fig=fig,
+        exc = _call(lambda: plot.traj_colormap(ax, t1, cvals, mode, lo, hi, fig=fig,
                                                plot_start_end_markers=SETTINGS.plot_start_end_markers))
         out["colormap"] = _describe(*w.new())
         out["colormap"]["error"] = exc
@@ -607,7 +616,8 @@ def judge_scenario(case, val, out):
     if kind != "Drawn" or len(c["segments"]) != 1:
         return _tie("colormap_segments", "expected exactly one line collection (model: %s, impl: %d)" % (kind, len(c["segments"])))
     if not same_bits(c["segments"][0], segs) and not (len(segs) == 0 and len(c["segments"][0]) == 0):
-        return _viol("colour-mapped segments", "segment k does not join pose k and pose k+1 on the mode's axes",
+        return _viol("colour-mapped segments", "segment k does not join pose k and pose k+1 on the mode's axes (%d poses, %s values "
+                     "colour-mapped: %d segments expected, %d drawn)" % (case["n"], out.get("cmap_values"), len(segs), len(c["segments"][0])),
                      _brief(segs, 3), _brief(c["segments"][0], 3))
     got_marks = [p for pts in c["points"] for p in pts]
     if len(c["points"]) != len(want_marks) or not same_bits(got_marks, want_marks):
@@ -828,14 +838,14 @@ def default_settings():
 
 
 def mk(mode, unit, n, seed, gen="random", stamps=True, start="none", err_x="none", cumulative=False,
-       entry="traj", epoch=False, corr_mismatch=False, int_pos="none", **settings):
+       entry="traj", epoch=False, corr_mismatch=False, int_pos="none", cmap_vals="n", **settings):
     s = default_settings()
     for k, v in settings.items():
         s[k] = hexf(v) if k == "plot_axis_marker_scale" else v
     return {"kind": "scenario", "mode": mode, "unit": unit, "n": int(n), "seed": int(seed), "gen": gen,
             "stamps": bool(stamps), "start": start if stamps else "none", "err_x": err_x, "cumulative": bool(cumulative),
             "entry": entry, "epoch": bool(epoch), "corr_mismatch": bool(corr_mismatch), "int_pos": int_pos,
-            "settings": s}
+            "cmap_vals": cmap_vals, "settings": s}
 
 
 def corpus():
@@ -859,6 +869,15 @@ def corpus():
                       int_pos=("first_list", "first_i32", "second", "second_i32")[i % 4],
                       err_x=("decreasing", "shuffled")[i % 2], entry=("traj", "trajectories")[(i // 2) % 2],
                       cumulative=i % 4 == 3))
+    # one colour-mapped value per pose pair (N-1 values for N poses: the layout of evo_rpe) in every mode, down to 2 poses /
+    # 1 value; x arrays of the error plot without a non-zero entry (distances / seconds from the start of a sequence that
+    # stands still), or with the last entry only
+    for i, m in enumerate(MODES):
+        out.append(mk(m, "meters", (5, 2, 3, 9)[i % 4], 20 + i, gen=("dyadic", "random")[i % 2], cmap_vals="pairs",
+                      stamps=i % 2 == 0, err_x="zeros", cumulative=i % 2 == 1))
+        out.append(mk(m, LENGTH_UNITS[(i + 1) % 4], (4, 6, 2)[i % 3], 30 + i, gen=("random", "utm", "dyadic")[i % 3],
+                      cmap_vals=("pairs", "n")[i % 2], err_x=("zeros_tail", "zeros")[i % 2], cumulative=i % 4 < 2,
+                      entry=("traj", "trajectories")[i % 2], plot_start_end_markers=i % 3 != 0))
     return out
 
 
@@ -894,6 +913,12 @@ def scenario_cases(ctx):
                           plot_show_axis=rng.random() < 0.8,
                           euler_angle_sequence=rng.choice(["sxyz", "sxyz", "szyx", "rzyx"]),
                           int_pos=rng.choice(["none"] * 15 + ["first", "first_list", "first_i32", "second", "second_list"])))
+            # derived from the case's own seed: no extra draw from the shared generator
+            sd = out[-1]["seed"]
+            if sd % 3 == 0:
+                out[-1]["cmap_vals"] = "pairs"
+            if (sd // 3) % 8 == 0:
+                out[-1]["err_x"] = ("zeros", "zeros_tail")[(sd // 24) % 2]
     if not ctx.quick:
         for m in MODES:   # the upper end of the quantifier: 500 poses in every mode
             out.append(mk(m, rng.choice(LENGTH_UNITS), 500, rng.randrange(10 ** 6), start="other", err_x="seconds",
@@ -943,7 +968,7 @@ def shrink(case):
             c["settings"][k] = v
             yield c
     for k, v in (("gen", "dyadic"), ("epoch", False), ("entry", "traj"), ("corr_mismatch", False), ("cumulative", False),
-                 ("err_x", "none"), ("int_pos", "none")):
+                 ("err_x", "none"), ("int_pos", "none"), ("cmap_vals", "n")):
         if case.get(k, v) != v:
             c = json.loads(json.dumps(case))
             c[k] = v
@@ -990,14 +1015,16 @@ def run(ctx, replay=None, proofs_ok=True):
                     "markers:%s" % c["settings"]["plot_start_end_markers"],
                     "axes_scale:%s" % unhex(c["settings"]["plot_axis_marker_scale"]),
                     "correspondences:%s" % c["settings"]["plot_pose_correspondences"],
-                    "integer_positions:%s" % c.get("int_pos", "none"), "error_x_array:%s" % c["err_x"]):
+                    "integer_positions:%s" % c.get("int_pos", "none"), "error_x_array:%s" % c["err_x"],
+                    "colormap_values:%s" % c.get("cmap_vals", "n")):
             hist[key] = hist.get(key, 0) + 1
     cov = {"evaluations": stats_s["evaluations"] + stats_i["evaluations"],
            "distinct_nontrivial": stats_s["distinct_nontrivial"],
            "rule": "scenario = (plot mode, length unit, n poses, data generator, with/without timestamps, start time, "
                    "marker / correspondence / legend / inversion / aspect settings, float or integer-typed positions of "
                    "either trajectory, x array of the error plot: none / seconds / distances / lap time / decreasing / "
-                   "repeated values / arbitrary order); every scenario calls prepare_axis, "
+                   "repeated values / arbitrary order / all zero / zero but the last; colour-mapped values: one per pose or "
+                   "one per pose pair (N-1)); every scenario calls prepare_axis, "
                    "traj|trajectories, traj_colormap, draw_coordinate_axes, draw_correspondence_edges, traj_xyz, traj_rpy, "
                    "speeds, error_array and compares every new artist's data with the Coq model; on every length axis (trajectory plot, "
                    "traj_xyz) the reading of each plotted pose (tick label of the drawn coordinate) is compared with the pose's "
